@@ -928,13 +928,40 @@ func sourceHasFallback(src []utils.Source) bool {
 	return false
 }
 
-func joinHasFallback(src []utils.Join) bool {
-	for _, ls := range src {
-		if ls.Src.AlwaysReturns {
-			return true
+// appendJoinSelectors collects the selectors of join operands, including joins nested inside them. Only selectors
+// that carry their own `or <always returning>` fallback are skipped, an always returning operand elsewhere in the
+// query (`foo and on() hour() > 9`) doesn't make the other operands optional.
+func appendJoinSelectors(n parser.PromQLExpr, selectors []*promParser.VectorSelector, joins []utils.Join) []*promParser.VectorSelector {
+	for _, js := range joins {
+		if js.Src.Selector != nil && !selectorHasFallback(n, js.Src.Selector) {
+			selectors = append(selectors, selectorWithoutOffset(js.Src.Selector))
 		}
+		selectors = appendJoinSelectors(n, selectors, js.Src.Joins)
 	}
-	return false
+	return selectors
+}
+
+// selectorHasFallback tells if the selector sits on one side of an `or` whose other side always returns something.
+func selectorHasFallback(n parser.PromQLExpr, vs *promParser.VectorSelector) (hasFallback bool) {
+	inside := func(node promParser.Node) bool {
+		pr := node.PositionRange()
+		return pr.Start <= vs.PosRange.Start && vs.PosRange.End <= pr.End
+	}
+	promParser.Inspect(n.Query.Expr, func(node promParser.Node, _ []promParser.Node) error {
+		be, ok := node.(*promParser.BinaryExpr)
+		if !ok || be.Op != promParser.LOR || !inside(be) {
+			return nil
+		}
+		other := be.RHS
+		if inside(be.RHS) {
+			other = be.LHS
+		}
+		if sourceHasFallback(utils.LabelsSource(n.Value.Value, other)) {
+			hasFallback = true
+		}
+		return nil
+	})
+	return hasFallback
 }
 
 func getNonFallbackSelectors(n parser.PromQLExpr) (selectors []*promParser.VectorSelector) {
@@ -946,13 +973,7 @@ func getNonFallbackSelectors(n parser.PromQLExpr) (selectors []*promParser.Vecto
 				selectors = append(selectors, selectorWithoutOffset(ls.Selector))
 			}
 		}
-		if !joinHasFallback(ls.Joins) {
-			for _, js := range ls.Joins {
-				if js.Src.Selector != nil {
-					selectors = append(selectors, selectorWithoutOffset(js.Src.Selector))
-				}
-			}
-		}
+		selectors = appendJoinSelectors(n, selectors, ls.Joins)
 		for _, us := range ls.Unless {
 			if !us.Src.IsConditional {
 				continue
